@@ -323,6 +323,9 @@ type vKDelSchedule struct {
 	// shape of the k-th submitted configuration: 0 = a router with a neighbor, prefixes and a BFD profile,
 	// 1 = the same router with everything withdrawn, 2 = no router at all (every peer closed)
 	Shapes []int `json:"shapes"`
+	// content of the k-th submitted configuration (shape 0): equal ids = equal configurations, so that a
+	// configuration which is already applied is submitted again while another one is still pending (A, B, A)
+	Ids []int `json:"ids"`
 }
 
 func vKDelGen(r *rand.Rand) vKDelSchedule {
@@ -362,6 +365,22 @@ func vKDelGen(r *rand.Rand) vKDelSchedule {
 	if len(sc.Shapes) > 0 {
 		sc.Shapes[0] = 0
 	}
+	for k := range sc.SubmitUs {
+		if r.Intn(2) == 0 {
+			sc.Ids = append(sc.Ids, r.Intn(2)) // small alphabet: an earlier configuration comes back
+		} else {
+			sc.Ids = append(sc.Ids, 10+k)
+		}
+	}
+	if n := len(sc.SubmitUs); n >= 3 && r.Intn(2) == 0 {
+		// A is applied (long gap, consumer idle), then B and, inside B's window, A again
+		sc.StartUs = 0
+		sc.BusyUs = []int{0}
+		sc.SubmitUs[n-2] = 5*sc.IntervalUs + 10000
+		sc.SubmitUs[n-1] = r.Intn(sc.IntervalUs / 2)
+		sc.Shapes[n-3], sc.Shapes[n-2], sc.Shapes[n-1] = 0, []int{0, 1, 2}[r.Intn(3)], 0
+		sc.Ids[n-3], sc.Ids[n-2], sc.Ids[n-1] = 0, 1, 0
+	}
 	return sc
 }
 
@@ -373,7 +392,10 @@ func TestVerifKDeliver(t *testing.T) {
 	const node, ns = "node-a", "frr-k8s-system"
 	scs := []vKDelSchedule{{IntervalUs: 4000, StartUs: 9000, BusyUs: []int{0}, SubmitUs: []int{0}, Shapes: []int{0}}, // consumer starts after the timer fired
 		{IntervalUs: 3000, StartUs: 0, BusyUs: []int{0}, SubmitUs: []int{0, 9000}, Shapes: []int{0, 2}}, // advertise, later close everything
-		{IntervalUs: 3000, StartUs: 0, BusyUs: []int{0}, SubmitUs: []int{0, 9000}, Shapes: []int{0, 1}}} // advertise, later withdraw everything
+		{IntervalUs: 3000, StartUs: 0, BusyUs: []int{0}, SubmitUs: []int{0, 9000}, Shapes: []int{0, 1}}, // advertise, later withdraw everything
+		// A applied; B and, before B was reconciled, A again (a prefix withdrawn and re-added quickly)
+		{IntervalUs: 6000, StartUs: 0, BusyUs: []int{0}, SubmitUs: []int{0, 40000, 500}, Shapes: []int{0, 0, 0}, Ids: []int{0, 1, 0}},
+		{IntervalUs: 6000, StartUs: 0, BusyUs: []int{0}, SubmitUs: []int{0, 40000, 500}, Shapes: []int{0, 1, 0}, Ids: []int{0, 1, 0}}}
 	for len(scs) < n {
 		scs = append(scs, vKDelGen(r))
 	}
@@ -431,7 +453,11 @@ func TestVerifKDeliver(t *testing.T) {
 			}()
 			mk := func(k int) frrv1beta1.FRRConfiguration {
 				c := frrv1beta1.FRRConfiguration{ObjectMeta: metav1.ObjectMeta{Name: key.Name, Namespace: ns}}
-				switch sc.Shapes[k] {
+				shape := sc.Shapes[k]
+				if k < len(sc.Ids) {
+					k = sc.Ids[k]
+				}
+				switch shape {
 				case 0:
 					rx := uint32(100 + k)
 					c.Spec.BGP.Routers = []frrv1beta1.Router{{ASN: 64512, ID: "10.0.0.1", Prefixes: []string{fmt.Sprintf("192.0.2.%d/32", k)},
@@ -464,13 +490,28 @@ func TestVerifKDeliver(t *testing.T) {
 			var got []byte
 			deadline := time.Now().Add(3 * time.Second)
 			delivered := false
-			for !blocked && !delivered && time.Now().Before(deadline) {
+			read := func() bool {
 				cur := frrv1beta1.FRRConfiguration{}
 				// no object at all denotes the same as an object with an empty Spec (Reconcile does not create an
 				// empty configuration when none exists)
 				_ = cl.Get(context.TODO(), key, &cur)
 				got, _ = json.Marshal(cur.Spec)
-				delivered = string(got) == string(want)
+				return string(got) == string(want)
+			}
+			// "delivered" = the API holds the last submitted configuration AND still does after every pending
+			// timer / busy period has run out (an OLDER pending configuration must not be applied over it)
+			settle := 3 * time.Duration(sc.IntervalUs) * time.Microsecond
+			for _, us := range sc.BusyUs {
+				if d := time.Duration(us) * time.Microsecond; d > settle {
+					settle = d
+				}
+			}
+			settle += time.Duration(sc.StartUs)*time.Microsecond + 40*time.Millisecond
+			for !blocked && !delivered && time.Now().Before(deadline) {
+				if read() {
+					time.Sleep(settle)
+					delivered = read()
+				}
 				if !delivered {
 					time.Sleep(2 * time.Millisecond)
 				}
@@ -490,10 +531,14 @@ func TestVerifKDeliver(t *testing.T) {
 			if sc.StartUs > sc.IntervalUs {
 				out.Stat("deliver_consumer_starts_after_first_timer", 1)
 			}
+			if n := len(sc.Ids); n >= 3 && sc.Ids[n-1] == sc.Ids[n-3] && sc.Ids[n-1] != sc.Ids[n-2] && sc.Shapes[n-1] == 0 && sc.Shapes[n-3] == 0 &&
+				sc.SubmitUs[n-1] < sc.IntervalUs && sc.SubmitUs[n-2] > 3*sc.IntervalUs {
+				out.Stat("deliver_applied_config_resubmitted_while_other_pending", 1)
+			}
 			if blocked {
 				out.Fail("kdeb-update-blocked", fmt.Sprintf("schedule %d: UpdateConfig did not return within 5 s", si), sc)
 			} else if !delivered {
-				out.Fail("kdeb-config-not-delivered", fmt.Sprintf("schedule %d: 3 s after the last UpdateConfig the FRRConfiguration in the API is not the last submitted one (%d reconcile events reached the consumer; in API: %s)",
+				out.Fail("kdeb-config-not-delivered", fmt.Sprintf("schedule %d: 3 s after the last UpdateConfig the FRRConfiguration in the API is not (or, once every pending timer ran out, no longer) the last submitted one (%d reconcile events reached the consumer; in API: %s)",
 					si, ev, string(got)), sc)
 			}
 		}(si, sc)
